@@ -392,6 +392,71 @@ func decorate(r *hx.Rng, s *gq.SchemaDesc, maxLayers int) {
 			gq.TypeDesc{Kind: "OBJECT", Name: "LateHolder", IsTypeOf: true, Fields: []gq.FieldDesc{{Name: "h", Type: wrapDeep(r, "LateB", 3)}}},
 			gq.TypeDesc{Kind: "INTERFACE", Name: "LateI", ResolveType: true, Fields: []gq.FieldDesc{{Name: "x", Type: wrapDeep(r, "LateC", 2)}}})
 	}
+	// sole-reference groups: named input types (enum, input object whose field is the only use of another enum,
+	// custom scalar; list / non-null wrapped) that occur ONLY as the type of (a) an argument of a field of an interface
+	// that is reachable from a Query field and has no implementer in the type map (none declared, or the only one
+	// withheld: prefix Held), (b) an argument of a Query field, (c) an argument of a directive. genCase mostly
+	// withholds these types from SchemaConfig.Types, so the argument is the only path into the type map.
+	soleIn := func(prefix string) (enum, in string) {
+		enum, in = prefix+"Enum", prefix+"In"
+		vg := &valueGen{r: r, s: s}
+		s.Types = append(s.Types,
+			gq.TypeDesc{Kind: "ENUM", Name: enum, Desc: pickDesc(r), Values: []gq.EnumValDesc{{Name: "P", Internal: 7}, {Name: "Q", Internal: "q q"}, {Name: "R"}}},
+			gq.TypeDesc{Kind: "ENUM", Name: enum + "2", Values: []gq.EnumValDesc{{Name: "X", Internal: "X"}, {Name: "Y", Internal: 0}}})
+		f := gq.ArgDesc{Name: "e2", Type: wrapDeep(r, enum+"2", 3), Desc: pickDesc(r)}
+		if r.Chance(1, 2) {
+			te, _ := gq.ParseType(f.Type)
+			f.Default = vg.value(te, 2, true)
+			f.HasDef = f.Default != nil
+		}
+		s.Types = append(s.Types, gq.TypeDesc{Kind: "INPUT_OBJECT", Name: in, Desc: pickDesc(r), InputFields: []gq.ArgDesc{f, {Name: "n", Type: "Int"}}})
+		return enum, in
+	}
+	soleArgs := func(prefix string, withScalar bool) []gq.ArgDesc {
+		enum, in := soleIn(prefix)
+		vg := &valueGen{r: r, s: s}
+		named := []string{enum, in}
+		if withScalar {
+			s.Types = append(s.Types, gq.TypeDesc{Kind: "SCALAR", Name: prefix + "Scalar", Desc: pickDesc(r),
+				Serialize:    [][2]interface{}{{5, 5}, {"five", 5}},
+				ParseValue:   [][2]interface{}{{5, 5}, {"5", 5}},
+				ParseLiteral: [][2]interface{}{{5, 5}, {"5", 5}}})
+			named = append(named, prefix+"Scalar")
+		}
+		args := []gq.ArgDesc{}
+		for i, n := range named {
+			a := gq.ArgDesc{Name: fmt.Sprintf("s%d", i), Type: wrapDeep(r, n, 3), Desc: pickDesc(r)}
+			te, _ := gq.ParseType(a.Type)
+			if te.Kind == "nonNull" || r.Chance(1, 2) {
+				a.Default = vg.value(te, 2, true)
+				a.HasDef = a.Default != nil
+				if !a.HasDef && te.Kind == "nonNull" {
+					a.Type = a.Type[:len(a.Type)-1]
+				}
+			}
+			args = append(args, a)
+		}
+		return args
+	}
+	if r.Chance(2, 3) { // (a) interface field arguments
+		fld := gq.FieldDesc{Name: "g", Type: wrapDeep(r, "Int", 2), Args: soleArgs("Ao", true), Desc: pickDesc(r)}
+		s.Types = append(s.Types, gq.TypeDesc{Kind: "INTERFACE", Name: "AoI", ResolveType: true, Desc: pickDesc(r), Fields: []gq.FieldDesc{fld}})
+		if r.Chance(1, 2) {
+			s.Types = append(s.Types, gq.TypeDesc{Kind: "OBJECT", Name: "HeldImpl", IsTypeOf: true, Interfaces: []string{"AoI"}, Fields: []gq.FieldDesc{fld, {Name: "own", Type: "Int"}}})
+		}
+		if q := s.Type(s.Query); q != nil {
+			q.Fields = append(q.Fields, gq.FieldDesc{Name: "viaAoI", Type: wrapDeep(r, "AoI", 2)})
+		}
+	}
+	if r.Chance(1, 2) { // (b) object field arguments
+		args := soleArgs("Oo", r.Chance(1, 2))
+		if q := s.Type(s.Query); q != nil {
+			q.Fields = append(q.Fields, gq.FieldDesc{Name: "viaOo", Type: "Int", Args: args})
+		}
+	}
+	if r.Chance(1, 2) { // (c) directive arguments
+		s.Directives = append(s.Directives, gq.DirectiveDesc{Name: "onlyarg", Locations: []string{"FIELD", "QUERY"}, Args: soleArgs("Do", r.Chance(1, 2)), Desc: pickDesc(r)})
+	}
 	// subscription root
 	if r.Chance(1, 4) {
 		sub := gq.TypeDesc{Kind: "OBJECT", Name: "S", Desc: pickDesc(r)}
@@ -489,6 +554,26 @@ func genCase(r *hx.Rng) caseT {
 			}
 		}
 		shuffle(r, c.Appended)
+	}
+	// sole-reference groups (see decorate): the argument-only types are mostly not handed to SchemaConfig.Types /
+	// AppendType, the implementer of AoI never is
+	dropPrefix := func(pre string) {
+		keep := func(xs []string) []string {
+			out := []string{}
+			for _, x := range xs {
+				if len(x) < len(pre) || x[:len(pre)] != pre {
+					out = append(out, x)
+				}
+			}
+			return out
+		}
+		c.Initial, c.Appended = keep(c.Initial), keep(c.Appended)
+	}
+	dropPrefix("Held")
+	for _, pre := range []string{"Ao", "Oo", "Do"} {
+		if r.Chance(3, 4) {
+			dropPrefix(pre)
+		}
 	}
 	if c.Initial == nil {
 		c.Initial = []string{}
